@@ -9,8 +9,29 @@ STAGE = os.path.join(VERIF, ".stage")
 BUILD = os.path.join(VERIF, ".build")
 NCPU = os.cpu_count() or 4
 
+GOCACHE = os.path.join(BUILD, "gocache")      # the checks' own build cache (pruned when it grows: generated packages fill it quickly)
 GOENV = dict(os.environ, GOFLAGS="-mod=mod", GOPROXY="off", GOSUMDB="off", GOTOOLCHAIN="local",
-             GONOSUMDB="*", GONOSUMCHECK="1", GOFLAGS_EXTRA="")
+             GONOSUMDB="*", GONOSUMCHECK="1", GOFLAGS_EXTRA="", GOCACHE=GOCACHE)
+
+
+def _on_term(signum, frame):
+    raise SystemExit(143)        # lets the Scratch() context managers remove their directories
+
+
+try:
+    import signal
+    signal.signal(signal.SIGTERM, _on_term)
+except Exception:
+    pass
+
+
+def prune_gocache(limit_gb=6):
+    try:
+        out = subprocess.run(["du", "-s", "-BM", GOCACHE], stdout=subprocess.PIPE, text=True).stdout.split()
+        if out and int(out[0].rstrip("M")) > limit_gb * 1024:
+            shutil.rmtree(GOCACHE, ignore_errors=True)
+    except Exception:
+        pass
 GO = shutil.which("go1.26") or "/usr/local/bin/go1.26"
 
 
@@ -265,6 +286,7 @@ def go_build_test(pkg, out_name=None, tags="verif", race=False, timeout=900, ext
     """Rebuilds the work copy from /repo's current tree and compiles the test binary of ./<pkg>.
     Returns the path of the binary (under .build/h_*/bin)."""
     with build_lock():
+        prune_gocache()
         w = prepare_harness()
         os.makedirs(os.path.join(w, "bin"), exist_ok=True)
         out = os.path.join(w, "bin", (out_name or pkg.replace("/", "_") + ".test") + ("-race" if race else ""))
